@@ -9,6 +9,10 @@ CHECKS = {
    text="Model-based stateful property testing: every BitMatrix dimension 1..130 x 1..8 and every BitArray size 0..200 is driven through generated operation sequences against a naive bool-grid model with all queries compared after every step. The dimension space is covered completely, contents and sequences are sampled; exploration is the right level because the property quantifies over unbounded histories.",
    note="Trusted: the naive [][]bool / []bool model in checks/c16 (a few lines per operation) and rapid's generators. Unchecked accessors only receive in-range indices.",
    tech="model-based stateful property testing (rapid) against a naive model"),
+ "C20": dict(cat="exploration", ref="DESIGN.md §4 C20",
+   text="Generated rows / start offsets / counter lengths against a run-length model, and the pattern-match score against the stated formula evaluated in exact rational arithmetic for every row of every library pattern table with all small counter vectors (exhaustive in the thorough tier) plus rapid-generated larger ones; +Inf classes and scale invariance included.",
+   note="Trusted: the run-length model and the big.Rat formula in checks/c20; tables come from the verif-tagged hooks. Cases within 1e-9 of the individual-variance boundary are skipped.",
+   tech="property-based testing against a reference model / exact-rational formula; small domains enumerated"),
 }
 
 NOT_YET = {}
